@@ -17,12 +17,13 @@ Next == \E g \in GrowSeq(d, Alpha) :
 Spec == Init /\ [][Next]_d
 SO(snake, kpfx) == [snake |-> snake, keep |-> FALSE, escdec |-> FALSE, cast |-> FALSE, kpfx |-> kpfx]
 SeqOpts == {SO(FALSE, "#"), SO(TRUE, "#"), SO(FALSE, "_")}
-EOs(so) == [apfx |-> "-", kpfx |-> so.kpfx, esc |-> TRUE, goempty |-> FALSE]
-Code(so) == (IF so.snake THEN "1" ELSE "0") \o "|" \o so.kpfx
+EOs(so, go) == [apfx |-> "-", kpfx |-> so.kpfx, esc |-> TRUE, goempty |-> go]
+Code(so, go) == (IF so.snake THEN "1" ELSE "0") \o "|" \o so.kpfx \o "|" \o (IF go THEN "1" ELSE "0")
+Variants == {<<so, FALSE>> : so \in SeqOpts} \cup {<<SO(FALSE, "#"), TRUE>>}
 Check == /\ \A so \in SeqOpts : SeqRoundTrip(d, so)
          /\ (DoEmit => PrintT(ToJson([f |-> "seq", d |-> d,
-               g |-> SetToSeq({[code |-> Code(so), r |-> Jsonable(DecodeSeq(d, so)),
-                                x |-> Join(RenderSeq(EncodeSeqRoot(DecodeSeq(d, so), so), EOs(so)))] : so \in SeqOpts})])))
+               g |-> SetToSeq({[code |-> Code(v[1], v[2]), r |-> Jsonable(DecodeSeq(d, v[1])),
+                                x |-> Join(RenderSeq(EncodeSeqRoot(DecodeSeq(d, v[1]), v[1]), EOs(v[1], v[2])))] : v \in Variants})])))
 N(l) == NM("", l)
 cOrder == [names |-> {N(<<"a">>), N(<<"b">>), NM("n", <<"b">>)}, anames |-> {}, avals |-> {}, texts |-> {<<"t">>}, maxattrs |-> 0, extras |-> {}]
 cAttrs == [names |-> {N(<<"a">>)}, anames |-> {N(<<"x">>), N(<<"y", "-", "z">>), NM("xmlns", <<"n">>), NM("n", <<"x">>)}, avals |-> {<<"1">>, <<"<", "&">>},
